@@ -34,6 +34,9 @@ def feature_tables(n, small=False):
         extra.append([("gene", [(0, 1, 1), (2, 3, -1)], {"label": ["mixed-strand"]})])
         extra.append([("gene", [(2, 3, -1), (0, 1, 1)], {"label": ["mixed-strand-rev"]})])
         extra.append([("misc_feature", [(0, 1, None), (1, 2, 1), (2, 3, -1)], {"label": ["three-parts"]})])
+    if n >= 4:
+        # a `source`-typed feature that touches both ends without being the whole circle (an origin-spanning join)
+        extra.append([("source", [(n - 2, n, 1), (0, 2, 1)], {"organism": ["part"]})])
     if small:
         keep = [0, 1, 2, 4, 5, 6, 8, 10, 12, 13]
         tables = [t for i, t in enumerate(tables) if i in keep]
